@@ -147,10 +147,10 @@ CHECKS = {
         technique='executed freestanding closure link, strace bracket, writable-symbol snapshot, const-input snapshot and read-only (mprotect) shared inputs, ThreadSanitizer and valgrind helgrind runs with result comparison against sequential replay and an observed-overlap matrix',
         text='(1) undefined-symbol table of every object vs the allowed set and a -nostdlib -static link with a runtime offering only mem* + libgcc that runs initialisers and a '
              'pairing/WKD-IBE/LQ-IBE workload (prod, portable-64, portable-32); (2) no system call between markers bracketing all 15 API families (one of them works on parameters, keys and master keys of two hierarchies that reached the shared area only through marshal + unmarshal, alternating between them); (3) all writable library symbols '
-             'unchanged by the workload; (4) TSan builds, 4/8/16 threads from a barrier, seeded mixes on private outputs sharing const inputs, frequently the same operation at once: no '
+             'unchanged by the workload - of the C20 driver (C interface; default and 32-bit-word builds) and of the drivers of C01-C16 (C++ entry points); (4) TSan builds, 4/8/16 threads from a barrier, seeded mixes on private outputs sharing const inputs, frequently the same operation at once: no '
              'report, results identical to sequential replay; evidence lists the operation-family pairs actually seen overlapping; (5) the shared const inputs (incl. attribute lists with '
              'identities >= r, hidden entries, scalars >= r) are byte-identical to their snapshot after every workload, and production builds run all families with those inputs in read-only '
-             'pages; (6) helgrind over the production build, which also sees the assembly routines. Every shared object kind is marshalled from the shared object itself, and every shared object is put back as it was created before the reference snapshot is taken (so a first-use write during set-up cannot hide).',
+             'pages; (6) helgrind over the production build, which also sees the assembly routines. The scheme family also uses call forms in which an argument aliases the output. Every shared object kind is marshalled from the shared object itself, and every shared object is put back as it was created before the reference snapshot is taken (so a first-use write during set-up cannot hide).',
         note='A finite number of schedules is observed. TSan cannot see inside the assembly routines; helgrind on the production build can, at lower volume.',
         ref='DESIGN.md section 3 C20'),
     'C03': dict(
@@ -170,23 +170,23 @@ NOT_YET = 'check not built yet in this round (planned, see DESIGN.md section 3)'
 # additions of the build-on session (see DESIGN.md sections 9.7-9.12), appended to the level texts
 EXTRA = {
     'C06': ' Multiples of r plus / minus offsets of every magnitude; scalars written digit by digit in base |x| with structured digits.',
-    'C04': ' The workload also runs on the portable code compiled without optimisation (clang -O0; thorough also 32-bit -O0, g++ -O2/-O0): latent undefined behaviour that optimised builds tolerate shows as a value difference. Elements with a prescribed relative norm to Fq6 (1, -1, 1 + t*v^m for one Fq2 coefficient t in Fq / imaginary / general) through inversion, squaring, conjugate product and the cyclotomic map.',
+    'C04': ' The workload also runs on the portable code compiled without optimisation (clang -O0; thorough also 32-bit -O0, g++ -O2/-O0): latent undefined behaviour that optimised builds tolerate shows as a value difference. Elements with a prescribed relative norm to Fq6 (1, -1, 1 + t*v^m for one Fq2 coefficient t in Fq / imaginary / general) through inversion, squaring, conjugate product and the cyclotomic map. Elements whose INTERNAL (Montgomery) limbs are sparse (zero low words, single words, single bits) in every coefficient.',
     'C01': ' Points are also handed over as Jacobian representatives with chosen z (1, -1, random and structured values such as 1+tu, u, the value whose limbs read 1), converted by the library and paired through all three entry points.',
     'C02': ' Products whose word-serial Montgomery reduction hits an exact carry coincidence (T[i+n]+carry in {2^w-2..2^w+1}, with/without pending meta-carry, every round, w = 64 and 32) are constructed by lib/redcsolve.py; operands made of extreme words; the baseline x86 routine family runs in the quick tier. Sums laid out against the word-wise compare-with-p cascade (top j words equal, deciding word one above / below / 0 / all-ones / sign bit set, clear, flipped; 64- and 32-bit words) for add and double.',
     'C03': ' Reduction inputs and products with exact carry coincidences (lib/redcsolve.py) and special-word operands run on every back end; the tower, group-law, scalar-multiplication, pairing, GT, encoding, hashing, WKD-IBE and LQ-IBE workloads are diffed across prod / baseline x86 / portable-64 / portable-32 in the quick tier; the AArch64 and Thumb-1 interpreters cover the integer subset a rewrite plausibly uses (csel family, branches, shifts), so a rewritten routine is judged rather than declared uncovered.',
-    'C05': ' Representatives include structured z values (-1, 2, 1/2, R, 2^64, 1+tu, 1+-u, u, tu, t, t+u, the value whose limbs read 1) through every operation and relation; output objects start as junk / a normalised point / the identity / another z by turns.',
+    'C05': ' Representatives include structured z values (-1, 2, 1/2, R, 2^64, 1+tu, 1+-u, u, tu, t, t+u, the value whose limbs read 1) through every operation and relation; output objects start as junk / a normalised point / the identity / another z by turns. Structured z values include those whose internal limbs read 2^32, 2^40, 2^63, 2^64, 2^96+2^33, 2^192*t.',
     'C07': ' Directed digit vectors (all zero, single digit) and sampler streams whose accepted draw is y = 0 or whose first draw per digit is exactly |x|, |x|-1, |x|+1, 2^64-1 or whose candidate is exactly r-1, r, r+1. Exponents written digit by digit in base |x| with digits structured in their 32-bit halves (zero low / high half, 2^32, 2^32-1, zero digits).',
     'C08': ' Lists of 31..65 and 255..257 (thorough ..300) affine pairs, prepared pairs and both; one prepared object prepared from a related point (same, negated, endomorphism images, identity) and then from Q must equal a fresh one. Pairs may point at their predecessor\'s G2 object (every sharing pattern over short lists with identity members).',
-    'C09': ' Destinations start dirty but valid (zero / identity flag with arbitrary coordinates / another point); twist points whose y has a zero component exercise the second arm of the sort rule; points of isomorphic curves exercise the curve test separately from the subgroup test. Identity encodings with padding that is neutral for a word-wise accumulator (lanes cancelling under + or xor). The greater flag is predicted by the library\'s sort rule (order of the Montgomery forms; part of the wire format); G1 points whose y lies within 2^j of the rule\'s decision boundary; the same stray control bits in several later fields.',
-    'C10': ' Draws exactly equal to the modulus and its neighbours for every sampler; cofactor-torsion abscissas; consecutive identity derivations from related hashes (shared prefixes / suffixes). Exact small-order (13, 23, ...) torsion points of the twist and the curve as sampler candidates. Hash inputs whose x^3+b lies in Fq (residue / non-residue) or is purely imaginary, into dirty destinations. The returned root is pinned to the sort rule (hash-to-curve outputs are stored and exchanged); hashes whose point has y at the decision boundary of that rule.',
-    'C11': ' Slot counts 33, 65, 257 (thorough also 130); hidden entries carry hostile id bits; fresh output keys start dirty (foreign valid points, wrong slot count, opposite signature flag, or 0xA5); directed adjustments that only toggle the omit-from-keys flag. Adjustments between same-layout lists, with omit-all toggles, ids that are near misses of each other (wkd.near: one bit / one word / equal low or high halves), list arguments that are views of one array; 15% of the random-consuming operations start from rejection-forcing byte streams. Identities that are special for the scalar decompositions underneath (small multiples of x^2, of the cube roots of unity mod r, of |x|^i, and their negatives) are part of the exhaustive value cycle; adjustments that give slots back, with stale records in the reallocated slot array.',
+    'C09': ' Destinations start dirty but valid (zero / identity flag with arbitrary coordinates / another point); twist points whose y has a zero component exercise the second arm of the sort rule; points of isomorphic curves exercise the curve test separately from the subgroup test. Identity encodings with padding that is neutral for a word-wise accumulator (lanes cancelling under + or xor). The greater flag is predicted by the library\'s sort rule (order of the Montgomery forms; part of the wire format); G1 points whose y lies within 2^j of the rule\'s decision boundary; the same stray control bits in several later fields. Identity encodings whose padding parses to zero without being zero (q, q with control bits, control bits alone); small-order torsion points as non-subgroup strings; every third hostile string is decoded right after a validating decode of the point it belongs to.',
+    'C10': ' Draws exactly equal to the modulus and its neighbours for every sampler; cofactor-torsion abscissas; consecutive identity derivations from related hashes (shared prefixes / suffixes). Exact small-order (13, 23, ...) torsion points of the twist and the curve as sampler candidates. Hash inputs whose x^3+b lies in Fq (residue / non-residue) or is purely imaginary, into dirty destinations. The returned root is pinned to the sort rule (hash-to-curve outputs are stored and exchanged); hashes whose point has y at the decision boundary of that rule. Fixed inputs needing 34 / 35 increments (far end of try-and-increment); related hashes by word permutation and xor/sum-neutral edits.',
+    'C11': ' Slot counts 33, 65, 257 (thorough also 130); hidden entries carry hostile id bits; fresh output keys start dirty (foreign valid points, wrong slot count, opposite signature flag, or 0xA5); directed adjustments that only toggle the omit-from-keys flag. Adjustments between same-layout lists, with omit-all toggles, ids that are near misses of each other (wkd.near: one bit / one word / equal low or high halves), list arguments that are views of one array; 15% of the random-consuming operations start from rejection-forcing byte streams. Identities that are special for the scalar decompositions underneath (small multiples of x^2, of the cube roots of unity mod r, of |x|^i, and their negatives) are part of the exhaustive value cycle; adjustments that give slots back, with stale records in the reallocated slot array. Identities with zero 32-bit words and long runs of one bits.',
     'C12': ' Ciphertext lists carry the omit-from-keys flag on value entries (it has no meaning there); documented adjustments that hide a fixed slot must stop the key from opening ciphertexts with that slot set. Negatives also use near-miss ids; adjustments that hide all remaining slots through the list-level flag precede the filling attempts; crafted random streams as in C11. Key values include the algebraically special identities of C11.',
-    'C13': ' Hierarchies with and without signature support; verify lists with flagged value entries; every precomputed input arrives by one of three routes (direct / adjusted from another list / adjusted away and back). Perturbed messages and ids include near misses (partial-word equality); crafted random streams as in C11.',
-    'C14': ' Value changes whose difference is 2^k + small for every k; consumers of precomputed values (encrypt_precomputed, sign_precomputed, verify_precomputed, resamplekey) receive them through adjust chains. adjust_precomputed chains and adjust_nondelegable pairs whose two lists are views (prefix / suffix / all) of one array; omit-all toggles on both lists; near-miss id changes.',
-    'C15': ' Destinations are dirty and reused (A, B with one invalid element at each position, intact B); equality covers hsig/bsig of signature-less objects (genuine defect fixed in /repo 5e1b5e0); identity-slot corruptions (sort bit, payload bit, other form). Objects with identity elements (constant, P+(-P), z=0 with arbitrary x,y) substituted at every element position round-trip, and accepted identity-element buffers must marshal back byte-identically. Single-element corruptions include the invalid-curve element (c^2 x, c^3 y) of a subgroup point at every position.',
+    'C13': ' Hierarchies with and without signature support; verify lists with flagged value entries; every precomputed input arrives by one of three routes (direct / adjusted from another list / adjusted away and back). Perturbed messages and ids include near misses (partial-word equality); crafted random streams as in C11. Signing and precompute lists carry the omit-from-keys flag on value entries as well.',
+    'C14': ' Value changes whose difference is 2^k + small for every k; consumers of precomputed values (encrypt_precomputed, sign_precomputed, verify_precomputed, resamplekey) receive them through adjust chains. adjust_precomputed chains and adjust_nondelegable pairs whose two lists are views (prefix / suffix / all) of one array; omit-all toggles on both lists; near-miss id changes. Sign-path checks flag random entries of the signing list; a const attribute list modified by the call is a violation.',
+    'C15': ' Destinations are dirty and reused (A, B with one invalid element at each position, intact B); equality covers hsig/bsig of signature-less objects (genuine defect fixed in /repo 5e1b5e0); identity-slot corruptions (sort bit, payload bit, other form). Objects with identity elements (constant, P+(-P), z=0 with arbitrary x,y) substituted at every element position round-trip, and accepted identity-element buffers must marshal back byte-identically. Single-element corruptions include the invalid-curve element (c^2 x, c^3 y) of a subgroup point at every position. Corruptions include small-order torsion elements (3/11/10177 on the curve, 13/23/2713 on the twist); every third unmarshal discovers the length with the stand-alone *_unmarshalled_length and stores l itself.',
     'C16': ' Degenerate masters (0, r, 2r, 2^256-1), all-zero encryption randomness and torsion-point identity hashes are directed cases; the hash callback may re-enter the library. Encrypt and setup also run from rejection-forcing random streams (digit and candidate rejections, boundary candidates). Master scalars include values special for the GLV / base-|x| decompositions and multiples of r plus offsets of every size.',
-    'C18': ' Second-operand special values are paired with first-operand special values through an index coprime to every period; exponents 0, 1, 5, |x|-1, 2^64; the 32-bit-word build runs in the quick tier. Rows add(P,P\'), add(P\',P), add(P,-P\') with P\' another Jacobian representative of P, add_mixed(P,+-P); unoptimised and g++ portable builds among the configurations.',
-    'C19': ' Sign / verify / encrypt rows use trial-dependent key patterns (fixed / free / hidden per slot) and extension lists; the pairing_sum row varies (affine, prepared) counts over {0,1,2}^2 incl. the empty list with NULL arrays. Binary wrappers run with out=a, a=b (same object) and out=a=b, unary ones in place on odd trials; GT-typed arguments include arbitrary Fq12 values. The list-level omit-all flag varies in every list; every third adjust trial repeats the entries with only that flag flipped; unoptimised portable build among the configurations.',
+    'C18': ' Second-operand special values are paired with first-operand special values through an index coprime to every period; exponents 0, 1, 5, |x|-1, 2^64; the 32-bit-word build runs in the quick tier. Rows add(P,P\'), add(P\',P), add(P,-P\') with P\' another Jacobian representative of P, add_mixed(P,+-P); unoptimised and g++ portable builds among the configurations. A driver that dies inside a library operation is a keyed violation naming the last completed row.',
+    'C19': ' Sign / verify / encrypt rows use trial-dependent key patterns (fixed / free / hidden per slot) and extension lists; the pairing_sum row varies (affine, prepared) counts over {0,1,2}^2 incl. the empty list with NULL arrays. Binary wrappers run with out=a, a=b (same object) and out=a=b, unary ones in place on odd trials; GT-typed arguments include arbitrary Fq12 values. The list-level omit-all flag varies in every list; every third adjust trial repeats the entries with only that flag flipped; unoptimised portable build among the configurations. Length rows use zero-slot objects into destinations with a stale slot count; sparse scalars; the layout probe reports a vanished C++ member as absent and judges by size, alignment and the other offsets.',
 }
 
 
